@@ -32,9 +32,9 @@ type TS struct {
 	FaultFree bool
 	// PruneEdge: edges (by the canonical atom that holds on them) that are assumed infeasible.
 	PruneEdge func(atom string) bool
-	memo   map[string][]tsExit
-	inprog map[string]bool
-	States int
+	memo      map[string][]tsExit
+	inprog    map[string]bool
+	States    int
 	// Trace of one path per (fn,in,exit) for witnesses
 	traces map[string][]*ssa.BasicBlock
 	rend   map[*ssa.Function]*Renderer
